@@ -30,7 +30,9 @@ func DurableWrites(rr *RunResult) []*WriteRec {
 }
 
 // NewRegistry returns a registry holding the scripted plugins; Run re-points them at its own lab.
-func NewRegistry() *registry.Register { return (&Lab{}).newRegistry() }
+func NewRegistry(sc *Scenario) *registry.Register {
+	return (&Lab{}).newRegistry(sc != nil && sc.SwapTypes)
+}
 
 // RebuildVault replays writes (in order) onto a fresh in-memory sqlite vault using only the Vault API, and returns
 // the pristine plans that were created, in creation order.
@@ -209,6 +211,16 @@ func CheckC09(sc *Scenario, d Durable, rr *RunResult, where string, res *vprop.R
 					}
 				}
 			}
+			// "Only actions that were in flight, durably Running without a durable result, may be invoked again": a check
+			// action of a (non-continuous) group that had durably finished — e.g. a block's BypassChecks that durably
+			// Failed before the block ran on — has a durable result, whatever the state of the scope around it.
+			if !r.IsSeq() && !r.IsCont() {
+				gtag := inv.Tag[:strings.LastIndex(inv.Tag, "/")]
+				if finished(d.status(gtag)) {
+					res.Fail("C09/finished-group-rerun:"+kindOfTag(gtag), "%s: check group %s was durably %v at the crash but %s#%d was invoked after restart\n%s", where, gtag, d.status(gtag), inv.Tag, inv.N, FormatEvents(rr.Events, 40))
+					return
+				}
+			}
 			if r.IsSeq() {
 				stag := fmt.Sprintf("%s/b%d/s%d", ptag, r.Block, r.Seq)
 				if finished(d.status(stag)) {
@@ -314,6 +326,10 @@ type CrashCase struct {
 	// Kill are real-kill cross-validation points (permille of the write log): a child process on a file-backed store
 	// is SIGKILLed after that write.
 	Kill []int
+	// Upgrade (C09 only): the restarted process runs a newer release of the plugins whose response type no longer
+	// decodes the responses the crashed process stored. Whatever the engine makes of such a plan (refusing to start,
+	// leaving it alone, resuming it), a durable success must not be executed again. Only the C09 rules are applied.
+	Upgrade bool `json:",omitempty"`
 }
 
 // RunCrashCase executes the uninterrupted run, then crashes and recovers at the chosen points.
@@ -375,7 +391,10 @@ func RunCrashCase(c *CrashCase, which string, res *vprop.Result) {
 		return len(res.Violations) == 0 && !res.Skip
 	}
 	recoverOn := func(ws []*WriteRec) (*RunResult, []*workflow.Plan, bool) {
-		reg := NewRegistry()
+		reg := NewRegistry(sc)
+		if c.Upgrade && which == "C09" {
+			reg = NewUpgradedRegistry(sc)
+		}
 		v, created, err := RebuildVault(reg, ws)
 		if err != nil {
 			res.Label("rebuild-failed")
